@@ -1,22 +1,41 @@
 (* C14 -- perft counts are exact and independent of the thread count.
    Proved for all positions and depths: the count does not depend on the reduction schedule (any order, any bracketing of the
    per-move sub-counts -- which is all rayon's sum may vary), and the bulk count at depth 1 equals the make-path count.
-   Exactness w.r.t. the rules (C14_full) is decided per run by the extracted Spec.perft on the engine's counts. *)
+   Exactness w.r.t. the rules (C14_full) is proved for every position satisfying the invariant (Proofs/PerftExact.v, from C01's
+   exactness and C02's successor refinement); the extracted Spec.perft is applied to the engine's counts on every run (the tie). *)
 From Coq Require Import NArith ZArith List Permutation.
-From JV Require Import Model.Chess Model.Abs Proofs.MoveGenProofs Proofs.PerftProofs.
+From JV Require Import Model.Chess Model.Abs Model.SearchChess Spec.ChessSpec Proofs.MoveGenProofs Proofs.PerftProofs Proofs.LegalInv Proofs.LegalInvB Proofs.PerftExact Proofs.StartPos.
 Local Open Scope N_scope.
 
 Theorem C14_any_schedule : forall k g t,
-  Permutation (leaves t) (map (sub_count (S k) g) (generate_moves g true)) -> reduce t = perft (S (S k)) g.
+  Permutation (leaves t) (map (sub_count (S k) g) (generate_moves g true)) -> reduce t = Chess.perft (S (S k)) g.
 Proof. exact perft_any_schedule. Qed.
 
 Theorem C14_schedule_free_sum : forall t counts, Permutation (leaves t) counts -> reduce t = sumN counts.
 Proof. exact any_schedule_same_sum. Qed.
 
-Theorem C14_depth1_paths_agree : forall g, perft 1 g = N.of_nat (length (filter (made g) (generate_moves g true))).
+Theorem C14_depth1_paths_agree : forall g, Chess.perft 1 g = N.of_nat (length (filter (made g) (generate_moves g true))).
 Proof. exact perft1_by_make. Qed.
 
-Definition C14_full : Prop := forall g d, wf g = true -> (1 <= d)%nat -> Z.of_N (perft d g) = spec_perft (N.of_nat d) g.
+(* exactness w.r.t. the rules: for every position satisfying the invariant and every depth >= 1 the sequential count is the number
+   of legal move sequences of that length (ChessSpec.perft over the rules' legal_moves / apply); no bound on the clocks *)
+Theorem C14_perft_is_exact : forall k g, legal_inv g -> Z.of_N (Chess.perft (S k) g) = ChessSpec.perft (S k) (abs g).
+Proof. exact perft_exact. Qed.
+Theorem C14_full : forall d g, legal_inv g -> (1 <= d)%N -> Z.of_N (perft_n d g) = spec_perft d g.
+Proof. exact perft_n_exact. Qed.
+Theorem C14_full_executable_hypothesis : forall d g, legal_inv_b g = true -> (1 <= d)%N -> Z.of_N (perft_n d g) = spec_perft d g.
+Proof. intros d g H. apply perft_n_exact. apply legal_inv_b_sound. exact H. Qed.
+Theorem C14_full_from_the_start_position : forall d g, chess_reach start_game g -> (1 <= d)%N -> Z.of_N (perft_n d g) = spec_perft d g.
+Proof. intros d g H. apply perft_n_exact. apply reachable_from_start_inv. exact H. Qed.
+(* together with C14_any_schedule: whatever order and bracketing the parallel reduction uses, the result is the rules' count *)
+Theorem C14_any_schedule_is_exact : forall k g t, legal_inv g ->
+  Permutation (leaves t) (map (sub_count (S k) g) (generate_moves g true)) -> Z.of_N (reduce t) = ChessSpec.perft (S (S k)) (abs g).
+Proof. intros k g t LI P. rewrite (perft_any_schedule k g t P). apply perft_exact. exact LI. Qed.
 
 Print Assumptions C14_any_schedule.
 Print Assumptions C14_depth1_paths_agree.
+Print Assumptions C14_perft_is_exact.
+Print Assumptions C14_full.
+Print Assumptions C14_full_executable_hypothesis.
+Print Assumptions C14_full_from_the_start_position.
+Print Assumptions C14_any_schedule_is_exact.
